@@ -73,6 +73,8 @@ def _twin(spec, which=0):
         dict(base, kind="list", key="zzloose", item=loose, twin_of="zzstrict"),
         dict(base, kind="dict", key="zzdstrict", keyf=None, valuef=item),
         dict(base, kind="dict", key="zzdloose", keyf=None, valuef=loose, twin_of="zzdstrict"),
+        # a scalar whose constraints interact: the length limit applies to the case-transformed text
+        dict(base, kind="str", key="zzcase", opts={"transform_case": ["upper", "lower"][which % 2], "max_len": 2 + which % 3, "transform_strip": [None, True, "x"][which % 3]}),
     ]
     keep = [c for c in spec["children"] if not c["key"].startswith("zz")]
     return dict(spec, children=keep + extra)
